@@ -98,6 +98,14 @@ CHECKS["C13"] = (
     "3/C13",
 )
 
+CHECKS["C15"] = (
+    "exploration",
+    "deterministic simulation of the real Ribbit server and the real clients on one simulated network: generated build databases, concurrent well-formed (TCP v1 MIME+checksum, TCP v2, HTTP via the real axum Router) and malformed/slow/never-terminated clients at seeded virtual times, seeded segmentation and latency, bounded-liveness probe",
+    "Seeded search over databases the server accepts x concurrent client mixes x segmentations: every row the project's own client parses must equal, field by typed field, the record with the chronologically newest build_time of the product; malformed requests must end in an error reply or a closed connection within 10 s + 1 s of virtual time; no task may panic; a fresh well-formed request sent after the last malformed client started must be answered correctly within 1 virtual second.",
+    "Trusted: the independent expectation model (response layout per region, RFC 3339 ordering), the stubbed transport boundary (no kernel TCP / hyper framing), product names restricted to request-safe characters.",
+    "3/C15",
+)
+
 PENDING = {}
 
 
